@@ -4,6 +4,7 @@ import Driver.Vdb
 import Driver.Ledger
 import Driver.Spork
 import Driver.Pool
+import Driver.PoolMulti
 import Driver.Rewards
 import Driver.Consensus
 import Driver.Codec
@@ -60,7 +61,8 @@ def registry : List Obj := [
   pureObj pureConsStore,
   mkObj ({} : CsDbSt) csDbStep,
   mkObj ([] : DlBuf) dlStep,
-  pureObj pureFrame
+  pureObj pureFrame,
+  mkObj ({} : PmSt) pmStep
 ]
 
 end ZV.Driver
